@@ -404,9 +404,13 @@ def check_immut(case):
     # constructor, from_tx of a mutable twin, parsing canonical bytes, parsing the non-canonical encodings the parser accepts
     from .c02 import _noncanonical
     from bitcoin.core import Hash
-    for wit in (None, [[b'w', b''], []], [[], [b'']]):
-        model = {'version': 2, 'vin': [(b'\x07' * 32, 1, b'\x51', 5), (b'\x08' * 32, 0, b'', 0xffffffff)], 'vout': [(9, b'\x52'), (0, b'')], 'wit': wit,
-                 'locktime': case.get('value', 1) % 2 ** 32 if isinstance(case.get('value', 1), int) and case.get('value', 1) >= 0 else 3}
+    lt_ = case.get('value', 1) % 2 ** 32 if isinstance(case.get('value', 1), int) and case.get('value', 1) >= 0 else 3
+    models = [{'version': 2, 'vin': [(b'\x07' * 32, 1, b'\x51', 5), (b'\x08' * 32, 0, b'', 0xffffffff)], 'vout': [(9, b'\x52'), (0, b'')], 'wit': wit, 'locktime': lt_}
+              for wit in (None, [[b'w', b''], []], [[], [b'']])]
+    # coinbase-shaped (single null outpoint) with and without witness data, an output of value -1, sequence 0
+    models += [{'version': 1, 'vin': [(bytes(32), 0xffffffff, b'\x51\x51', 0)], 'vout': [(-1, b'\x6a\x01x'), (50, b'')], 'wit': wit, 'locktime': lt_}
+               for wit in (None, [[bytes(32)]], [[b'']])]
+    for model in models:
         routes = [('constructor', libx.mk_tx(model, False)), ('from_tx', CTransaction.from_tx(libx.mk_tx(model, True))),
                   ('deserialize', CTransaction.deserialize(W.enc_tx(model)))]
         for tag, enc in _noncanonical(model):
